@@ -148,9 +148,23 @@ IUmount(p) ==
        /\ smap' = [smap EXCEPT ![idx] = NoMap]
        /\ dirty' = [dirty EXCEPT ![idx] = FALSE]
        /\ aok' = AUmountPre(TRUE, p)
-       /\ AUmountEff(p)
+       /\ AUmountEff(p, FALSE)
        /\ UNCHANGED <<nexts, cmap, omap, ipn, inext, iinit, inempty, restored>>
        /\ Log([op |-> "umount", path |-> PathStr(p), ok |-> TRUE])
+
+\* restore_mount(fs, idx, path) on the live instance for a path that is mounted at idx (re-attach in place):
+\* insert_mount_locked vacates superblocks[mnt.fs_idx] (= idx) and then stores the new file system there; the
+\* per-mount mapping stays (mnt.fs_idx = fs_idx); the root entry is converted again
+IRemount(p, b) ==
+  \E node \in {WalkT(ipn, RootNode, p)} :
+  /\ node # 0 /\ node \in DOMAIN mnt
+  /\ \E idx \in {mnt[node].idx} :
+     /\ sb' = [sb EXCEPT ![idx] = b]
+     /\ mnt' = [mnt EXCEPT ![node] = [idx |-> idx, root |-> RootLow, ruid |-> Out(IEff(idx), RootUid)]]
+     /\ aok' = ARemountPre(TRUE, p, idx)
+     /\ ARemountEff(b, RootRec, idx)
+  /\ UNCHANGED <<smap, nexts, cmap, omap, ipn, inext, iinit, inempty, dirty, restored>>
+  /\ Log([op |-> "remount", path |-> PathStr(p), b |-> b, ok |-> TRUE])
 
 \* S7b hit: the restored instance forgot that INIT was done (it offered no capability)
 KnownS7bHit == "S7b" \in Known /\ restored /\ inited /\ inempty
@@ -196,8 +210,9 @@ Init ==
 DoMount == nops < MaxOps /\ \E p \in Paths \cup {BadPath}, b \in Backends, m \in Maps \cup {NoMap} : IMount(p, b, m)
 DoUmount == nops < MaxOps /\ \E p \in Paths : IUmount(p)
 DoInit == nops < MaxOps /\ \E e \in BOOLEAN : IInit(e)
+DoRemount == nops < MaxOps /\ \E p \in Paths, b \in Backends : IRemount(p, b)
 DoSaveRestore == nops < MaxOps /\ WithPersist /\ ISaveRestore
-Next == DoMount \/ DoUmount \/ DoInit \/ DoSaveRestore
+Next == DoMount \/ DoUmount \/ DoInit \/ DoRemount \/ DoSaveRestore
 Spec == Init /\ [][Next]_vars
 
 (* ---------------- known findings, as predicates over A-level terms ---------------- *)
